@@ -12,7 +12,13 @@ import RpmVerif.Model.BufWriter
 * `wf PKG CAP SINK`, `wfile PKG LIMIT`: `write_file`. The harness' sink (for `wfile`: the kernel stopping the
   file at LIMIT bytes = sink `a:f<LIMIT>`, capacity 8192) is a state machine; `recordScript` replays the
   BufWriter call pattern against it only to RECORD the responses it gives; the model's answer is the proved
-  `writeFile cap (bufs) script` on that recorded script (and must agree with the replay: self-check). -/
+  `writeFile cap (bufs) script` on that recorded script (and must agree with the replay: self-check).
+* `wfile PKG LIMIT MODE`: the argument as `&str` / `&Path` / `String` (`str`, `refpath`, `string`) and a destination that
+  already holds K bytes (`pre<K>`) are predicted EXACTLY like the plain case ("same as a fresh `&PathBuf` destination":
+  `File::create` truncates, `AsRef<Path>` is the same path); the spec — from the canonical bytes alone — then also says that no
+  byte of the old file survives (`ok` ⇒ the file IS the canonical bytes, `err` ⇒ it is a prefix of them). `nodir` / `isdir`:
+  `File::create(path)?` fails before anything is written: predicted `err 0 <fnv of nothing>`; the spec demands an error
+  (class `uncreatable-accepted` otherwise; `directory-created` / `destination-directory-changed` are failures too). -/
 namespace RpmVerif.Driver.C14
 open RpmVerif.Hdr RpmVerif.Io RpmVerif.Driver
 
@@ -255,6 +261,33 @@ def writeFileHandle (op : String) (bs : Bytes) (cap : Nat) (sp : Spec) (impl : S
 def handle (op : String) (args : List String) (impl : String) : String :=
   match args with
   | [pkg, c, a] =>
+    if op == "wfile" then
+      -- third argument: argument type / state of the destination
+      let mode := a
+      match bytesOfHex pkg, (if c == "-" then some ({ chunk := .all } : Spec) else c.toNat?.map fun n => ({ chunk := .all, limit := some (n, 0) } : Spec)) with
+      | some bs, some sp =>
+        if mode == "nodir" || mode == "isdir" then
+          match parsePackage bs with
+          | .ok _ =>
+            let v := if impl.startsWith "err 0 " then "holds"
+              else if impl.startsWith "err" then "fails:uncreatable-wrote-bytes"
+              else if impl.startsWith "ok" then "fails:uncreatable-accepted" else "fails:" ++ ((impl.splitOn " ").getD 0 "other")
+            answer s!"err 0 {hex16 (fnv [])}" v s!"wfile-{mode}"
+          | _ => answer "noparse" "dontcare" "noparse"
+        else if mode == "str" || mode == "refpath" || mode == "string" || (mode.startsWith "pre" && ((mode.drop 3).toString.toNat?).isSome) then
+          -- same as the plain destination; the branch label records the variant
+          let r := writeFileHandle op bs 8192 sp impl
+          let tag := if mode.startsWith "pre" then
+              (match (mode.drop 3).toString.toNat?, parsePackage bs with
+               | some k, .ok p => if k > (writePackage p).length then "pre-longer" else if k == (writePackage p).length then "pre-equal" else "pre-shorter"
+               | _, _ => "pre")
+            else "arg-" ++ mode
+          match r.splitOn " | " with
+          | [m, v, b] => answer m v (b ++ "-" ++ tag)
+          | _ => r
+        else badReq "wfile-mode"
+      | _, _ => badReq "wfile-args"
+    else
     if op != "wf" then badReq "args" else
     match bytesOfHex pkg, c.toNat?, parseSpec a with
     | some bs, some cap, some sp => writeFileHandle op bs cap sp impl
